@@ -410,6 +410,19 @@ impl<CharIter: Iterator<Item = char>> Lexer<CharIter> {
         }
     }
 
+    fn integer_literal(&self, number_literal: &str) -> Result<i32> {
+        number_literal
+            .parse::<i32>()
+            .or_else(|_| located_error!(SyntaxError::UnrecognizedToken, Some(self.location)))
+    }
+
+    fn real_literal(&self, number_literal: String) -> Result<Option<TokenData>> {
+        match number_literal.parse::<f64>() {
+            Ok(_) => Ok(Some(TokenData::Primitive(Primitive::Real(number_literal)))),
+            Err(_) => located_error!(SyntaxError::UnrecognizedToken, Some(self.location)),
+        }
+    }
+
     fn number(&mut self) -> Result<Option<TokenData>> {
         match self.current.take() {
             Some(c) => {
@@ -422,43 +435,39 @@ impl<CharIter: Iterator<Item = char>> Lexer<CharIter> {
                             '0'..='9' => self.digital10(&mut number_literal)?,
                             'e' => {
                                 self.number_suffix(&mut number_literal)?;
-                                break Ok(Some(TokenData::Primitive(Primitive::Real(
-                                    number_literal,
-                                ))));
+                                break self.real_literal(number_literal);
                             }
                             '.' => {
                                 self.real(&mut number_literal)?;
-                                break Ok(Some(TokenData::Primitive(Primitive::Real(
-                                    number_literal,
-                                ))));
+                                break self.real_literal(number_literal);
                             }
                             '/' => {
                                 let mut denominator = String::new();
                                 self.advance(1);
                                 self.digital10(&mut denominator)?;
                                 break Ok(Some(TokenData::Primitive(Primitive::Rational(
-                                    number_literal.parse::<i32>().unwrap(),
-                                    match denominator.parse::<u32>().unwrap() {
+                                    self.integer_literal(&number_literal)?,
+                                    match self.integer_literal(&denominator)? {
                                         0 => {
                                             return located_error!(
                                                 SyntaxError::RationalDivideByZero,
                                                 Some(self.location)
                                             )
                                         }
-                                        other => other,
+                                        other => other as u32,
                                     },
                                 ))));
                             }
                             _ => {
                                 Self::test_delimiter(Some(self.location), *nc)?;
                                 break Ok(Some(TokenData::Primitive(Primitive::Integer(
-                                    number_literal.parse::<i32>().unwrap(),
+                                    self.integer_literal(&number_literal)?,
                                 ))));
                             }
                         },
                         None => {
                             break Ok(Some(TokenData::Primitive(Primitive::Integer(
-                                number_literal.parse::<i32>().unwrap(),
+                                self.integer_literal(&number_literal)?,
                             ))))
                         }
                     }
